@@ -291,7 +291,12 @@ def r4_validate_before_commit(rep, src):
     nl_end = rx.regex_lang(r'(?s:.*)\n', 0, 'fullmatch', alpha=alpha)
     cont = rx.regex_lang(r'[ \t#](?s:.*)', 0, 'fullmatch', alpha=alpha)
     res = {'every line ends with a newline': True, 'continuation lines start with blank or #': True, 'last line is not a comment': True,
-           're-parse of the new field': True, 'syntax errors are rejected': True, 'nothing stored before validation': True}
+           're-parse of the new field': True, 'syntax errors are rejected': True, 'nothing stored before validation': True,
+           'the re-parse is the field and nothing else': True}
+    # a line of blanks only ends the paragraph for the parser: when the new value has one as its last line(s), the re-parse is the
+    # field followed by a separator (and whatever comes after it), and taking "the first paragraph" silently drops that rest.  Either
+    # no such line is accepted by the per-line checks, or the committing path has tested that the re-parsed file has exactly one part.
+    blank_line = rx.regex_lang(r'[ \t]*\n', 0, 'fullmatch', alpha=alpha)
     why = {}
     for p_ in committing:
         idx = [i for i, e in enumerate(p_.events) if is_commit(e)][0]
@@ -321,6 +326,13 @@ def r4_validate_before_commit(rep, src):
             res['syntax errors are rejected'] = False
         if any(e[0] == 'store' and _stores_into_self(e[1]) for e in before):
             res['nothing stored before validation'] = False
+        blank_ok = bool(loops) and loops[0][1]['accepted'][False].intersect(blank_line).is_empty()
+        parts_ok = any('iter_parts()' in t and 'parse_deb822_file(' in t and (('!= 1' in t and not pol) or ('== 1' in t and pol)) for t, pol in lits)
+        if not (blank_ok or parts_ok):
+            res['the re-parse is the field and nothing else'] = False
+            wb_ = loops[0][1]['accepted'][False].intersect(blank_line).witness() if loops else None
+            why['the re-parse is the field and nothing else'] = ('the later line %r is accepted, the parser reads it as the end of the paragraph, and the first paragraph of the re-parse '
+                                                                 'is taken without a test that nothing follows it: a value that ends in such lines is stored cut off, without an error' % (wb_,))
         _ = seqs
     # the rejecting sides raise ValueError
     for p_ in ps:
